@@ -312,6 +312,35 @@ def check(run):
             if cs(env["signed"]) != want:
                 run.violation("verification changed the canonical bytes of the value it was given", {"kind": "canon-random", "value_repr": f"version {v_new!r}"})
     run.extra["verified_bytes_cases"] = nver
+    # the bytes are a function of the value alone - also of nothing that happened EARLIER in the process: a sample of the bounded domain is
+    # serialised, then the library is put through its other activities (interactive modify-metadata sessions with their display code, command
+    # line sub-commands, builders, signing and verification, failing calls), then the same sample is serialised again
+    from .. import modify_engine
+    hist_sample = [c for c in r.cases[:: max(1, len(r.cases) // 400)]]
+    before_hist = [cs(pyvalue(c["v"])) for c in hist_sample]
+    rm = run.tlc("Modify", "Modify_quick.cfg", expect_cases=True, timeout=1800, workers=8)
+    wdm = os.path.join(run.scratch, "c07-modify")
+    os.makedirs(wdm, exist_ok=True)
+    for idx, case in enumerate(rm.cases[:: max(1, len(rm.cases) // 12)][:12]):
+        modify_engine.replay_script(case, run.seed, idx, wdm)
+    cli = lib.cct("cli")
+    mc = lib.cct("metadata_construction")
+    for argv in (["verify-metadata", os.path.join(wdm, "nope-1.json"), os.path.join(wdm, "nope-2.json")], ["sign-artifacts", os.path.join(wdm, "nope.json"), os.path.join(wdm, "nope.pri")],
+                 ["gpg-key-lookup", "f0" * 20]):
+        try:
+            lib.call(cli.cli, argv)
+        except BaseException:  # noqa: BLE001 - argparse exits
+            pass
+    lib.call(mc.build_root_metadata, 1, [keys.pub[1]], 1, [keys.pub[2]], 1)
+    lib.call(cs, {1, 2})
+    lib.call(cs, nested("list", 5000))
+    after_hist = [cs(pyvalue(c["v"])) for c in hist_sample]
+    run.evaluations += 2 * len(hist_sample)
+    ndiff = sum(1 for a, b in zip(before_hist, after_hist) if a != b)
+    if ndiff or any(b != bytes(c["bytes"]) for b, c in zip(after_hist, hist_sample)):
+        run.violation("canonserialize returns other bytes for the same values after other library activity in the same process (interactive sessions, "
+                      "command line, failed calls)", {"kind": "canon-random", "value_repr": f"{ndiff} of {len(hist_sample)} sampled values changed"})
+    run._distinct.add("process-history")
     run.extra["random_values_beyond_bounded_domain"] = n
     run.assumptions.append("beyond the bounded domain of Canon.tla (all floats, arbitrary-size integers, all of Unicode) the claim is seeded random sampling against twin_canon, itself cross-checked against Canon.tla on the whole bounded domain in this run")
 
